@@ -7,7 +7,8 @@ CHECK = {
                  "tessellation identities, brute-force nearest generator and N-version agreement",
     "level_text": "Both real grid classes (NewVoronoiGrid, OldVoronoiGrid from libcmi.a) are run on every member of the "
                   "listed families: (i) every 2..4-subset of the 3x3x3 lattice exactly (new construction), (ii) the same "
-                  "subsets with a fixed irrational 1e-3 perturbation (both), (iii) full and perturbed lattices 2^3..12^3, "
+                  "subsets with a fixed irrational 1e-3 perturbation (both) and with the same pattern at 1e-6..1e-14 (nearly "
+                  "coplanar/cospherical, together with perturbed cospherical shells), (iii) full and perturbed lattices 2^3..12^3, "
                   "geometric clusters 2^-k at every corner, generators 1e-9 from walls/edges/corners, exactly cospherical "
                   "shells and their perturbations, in boxes 1:1:1, 1:2:4, 1:1:100 and a shifted cube; serial and 4-thread "
                   "construction. Each case runs in a forked worker so that an abort, crash or hang of the real code is a "
@@ -16,7 +17,9 @@ CHECK = {
                   "inside its cell, get_index on a 17^3 lattice = brute-force nearest generator, old = new in volumes, "
                   "centroids and neighbour sets; every coordinate handed to the exact predicates must lie in [1,2).",
     "level_note": "Exhaustive over the listed families only (generator counts <= 1728); the quick tier uses one "
-                  "representative per orbit of the 48 cube symmetries for the subsets and lattices up to 6^3. The old "
+                  "representative per orbit of the 48 cube symmetries for the subsets and lattices up to 6^3. Violations "
+                  "of the new construction carry a regime suffix assigned by the harness (precondition monitor / "
+                  "flattest real-space Delaunay tetrahedron), see NOTES.md. The old "
                   "construction is judged only on inputs farther from degeneracy than its own OLDVORONOI_TOLERANCE; "
                   "elsewhere its outcome is recorded. Tolerances are derived per case (baseline 1e-10 L, conditioning "
                   "16 eps L^2/s_min, old tolerance 4 eps_old/s_gen) and near misses are counted.",
